@@ -103,6 +103,7 @@ func mwProps(b *mwBase) []string {
 type chanElem struct {
 	val    ssa.Value
 	inLoop bool
+	spread bool // val is a slice parameter whose elements are the channel's contents (items...)
 }
 
 // chanLiteral: the contents of a channel that is made, filled and closed
@@ -123,6 +124,12 @@ func chanLiteral(fn *ssa.Function, v ssa.Value, depth int) ([]chanElem, bool) {
 			var out []chanElem
 			for _, e := range elems {
 				out = append(out, chanElem{val: e})
+			}
+			if !ok {
+				// a wrapper passing its own variadic parameter on: newClosedBufCh(msgs...)
+				if par, isPar := an.Unwrap(call.Call.Args[0]).(*ssa.Parameter); isPar {
+					return []chanElem{{val: par, spread: true}}, true
+				}
 			}
 			return out, ok
 		}
@@ -149,6 +156,17 @@ func chanLiteral(fn *ssa.Function, v ssa.Value, depth int) ([]chanElem, bool) {
 					for i, gp := range g.Params {
 						if gp == par {
 							e.val = call.Call.Args[i]
+						}
+					}
+					if e.spread {
+						if vs, okv := an.VariadicElems(e.val); okv {
+							for _, v := range vs {
+								out = append(out, chanElem{val: v})
+							}
+							continue
+						}
+						if _, still := an.Unwrap(e.val).(*ssa.Parameter); !still {
+							return nil, false
 						}
 					}
 				}
